@@ -33,7 +33,8 @@ def ensure_repo():
 
 def sync_verif():
     os.makedirs(VERIF, exist_ok=True)
-    rc, out = sh(f"rsync -a --delete --exclude target --exclude work --exclude replays --exclude .git --exclude evidence /verif/ {VERIF}/")
+    src = os.environ.get("VERIF_SRC") or ("/tmp/verif-frozen" if os.path.isdir("/tmp/verif-frozen") else "/verif")
+    rc, out = sh(f"rsync -a --delete --exclude target --exclude work --exclude replays --exclude .git --exclude evidence {src}/ {VERIF}/")
     assert rc == 0, out
     os.makedirs(f"{VERIF}/evidence", exist_ok=True)
     for f in [f"{VERIF}/harness/Cargo.toml", f"{VERIF}/http/Cargo.toml", f"{VERIF}/harness/gen/src/main.rs", f"{VERIF}/check", f"{VERIF}/c16/c16.py", f"{VERIF}/setup.sh"]:
